@@ -37,7 +37,7 @@ def check(ctx, tier):
     alias_exposure(ctx, tk)
     materialisation_step(ctx, tk, coh)
     from .. import hazards as _hz, scopes as _sc
-    _hz.generic(ctx, tk, "C06.z", _sc.scope(tk, "C06", depth=2))
+    _hz.generic(ctx, tk, "C06.z", _sc.scope(tk, "C06", depth=1))
     return {"materialising_methods": sorted(coh.ts.materialisers()),
             "entry_states": {q: sorted(v) for q, v in coh.entry.items() if v}}
 
